@@ -65,6 +65,34 @@ def run(tier):
     ok = (not r1.mismatches) and bool(r2.mismatches) and r2.mismatches[0][2] == i
     print("%-70s %s" % ("session replay accepts a genuine behaviour, rejects a corrupted pointer", "ok" if ok else "UNEXPECTED"))
     good &= ok
+    # free-running trace validation: a genuine merged trace is a behaviour of Monorail.tla; the same trace with a second
+    # acquisition moved inside the first holder's interval, or with a wrong slot number, is not
+    import freerun, random as _random, tempfile, shutil
+    tmp = tempfile.mkdtemp(prefix="selftest-fr-")
+    try:
+        rec = None
+        for i in range(30):
+            r = freerun.scenario(bins, i, _random.Random(500 + i))
+            if sum(1 for e in r["events"] if e["e"] == "acquired") >= 2 and any(e["e"] == "id_chosen" for e in r["events"]):
+                rec = r
+                break
+        if rec is None:
+            raise vlib.ToolError("no suitable free-running scenario")
+        ok0, _ = freerun.validate(rec, tmp)
+        two = copy.deepcopy(rec); two["idx"] = 901
+        ev = two["events"]
+        acq = [k for k, x in enumerate(ev) if x["e"] == "acquired"]
+        rel = next(k for k, x in enumerate(ev) if x["e"] == "releasing" and x["p"] == ev[acq[0]]["p"])
+        ev.insert(rel, ev.pop(acq[1]))
+        ok1, _ = freerun.validate(two, tmp)
+        ws = copy.deepcopy(rec); ws["idx"] = 902
+        e = next(x for x in ws["events"] if x["e"] == "id_chosen"); e["k"] = 3 - e["k"]
+        ok2, _ = freerun.validate(ws, tmp)
+        ok = ok0 and not ok1 and not ok2
+        print("%-70s %s" % ("MonorailTrace accepts a genuine free-running trace, rejects two corruptions", "ok" if ok else "UNEXPECTED"))
+        good &= ok
+    finally:
+        shutil.rmtree(tmp, ignore_errors=True)
     if not good:
         raise vlib.ToolError("selftest failed")
     return 0
